@@ -166,7 +166,10 @@ Print Assumptions load_suppression.
    progress per key; (2) every read that returned got the (val, err) of one run of the closure,
    led by a reader of the same key; it ran its own closure iff it is that leader, and then once;
    a reader that shared the run made no query and joined while the leader's call was still in
-   progress; (3) readers that shared a run got identical results and only one of them ran it. *)
+   progress; (3) readers that shared a run got identical results and only one of them ran it.
+   (C07's scripts also contain user functions that PANIC - [panics oL], result [shared]: the
+   waiters then see (nil, nil); doTake's closure does not panic in the model of C06, so
+   [panics oL = false] is the case that matters here and [shared] is the identity.) *)
 Theorem load_suppression_singleflight : forall scripts sched k,
   let s := C07.Model.exec scripts sched in
   (C07.Model.running C07.Model.GSF k s <= 1)%nat /\
@@ -179,7 +182,8 @@ Theorem load_suppression_singleflight : forall scripts sched k,
        nth_error (C07.Model.threads s) (fst (C07.Model.clead c)) = Some thL /\
        nth_error (C07.Model.tscript thL) (snd (C07.Model.clead c)) = Some oL /\
        C07.Model.ogrp oL = C07.Model.GSF /\ C07.Model.okey oL = k /\
-       (C07.Model.rval r, C07.Model.rerr r) = (C07.Model.oval oL, C07.Model.oerr oL) /\
+       (C07.Model.panics oL = false ->
+          (C07.Model.rval r, C07.Model.rerr r) = (C07.Model.oval oL, C07.Model.oerr oL)) /\
        (C07.Model.rfresh r = true -> C07.Model.clead c = (t, C07.Model.rop r) /\ C07.Model.rruns r = 1%nat) /\
        (C07.Model.rfresh r = false ->
           fst (C07.Model.clead c) <> t /\ C07.Model.rruns r = 0%nat /\
@@ -192,7 +196,7 @@ Theorem load_suppression_singleflight : forall scripts sched k,
      nth_error (C07.Model.tscript th2) (C07.Model.rop r2) = Some o2 ->
      C07.Model.ogrp o1 = C07.Model.GSF -> C07.Model.ogrp o2 = C07.Model.GSF ->
      C07.Model.rcid r1 = C07.Model.rcid r2 ->
-     (C07.Model.rval r1, C07.Model.rerr r1) = (C07.Model.rval r2, C07.Model.rerr r2) /\
+     C07.Model.shared (C07.Model.rval r1, C07.Model.rerr r1) = C07.Model.shared (C07.Model.rval r2, C07.Model.rerr r2) /\
      (C07.Model.rfresh r1 = true -> C07.Model.rfresh r2 = true -> t1 = t2 /\ C07.Model.rop r1 = C07.Model.rop r2)).
 Proof. exact C06.ProofsD.load_suppression_sf_lemma. Qed.
 Print Assumptions load_suppression_singleflight.
